@@ -222,7 +222,31 @@ class Source:
                 return self.const(tgt, e.attr, _depth)
         if isinstance(e, ast.Tuple):
             return tuple(self.eval_const(m, x, _depth) for x in e.elts)
+        if isinstance(e, ast.Attribute):
+            dotted = ast.unparse(e)
+            if dotted in self.KNOWN_CONSTS:
+                return self.KNOWN_CONSTS[dotted]
         raise KeyError(f"not a constant expression: {ast.dump(e)[:80]}")
+
+    KNOWN_CONSTS = {"sys.float_info.max": 1.7976931348623157e308, "sys.float_info.min": 2.2250738585072014e-308, "sys.float_info.epsilon": 2.220446049250313e-16,
+                    "sys.maxsize": 2 ** 63 - 1, "math.inf": float("inf"), "math.pi": 3.141592653589793}
+
+    def class_const(self, cname: str, attr: str):
+        """value of a class-level constant `attr = <constant expression>` found along the MRO of cname; raises KeyError if there is none"""
+        for c in self.mro(cname):
+            ent = self.find_class(c)
+            if not ent:
+                continue
+            mn, cdef = ent
+            for st in cdef.body:
+                tgt = val = None
+                if isinstance(st, ast.AnnAssign) and isinstance(st.target, ast.Name):
+                    tgt, val = st.target.id, st.value
+                elif isinstance(st, ast.Assign) and len(st.targets) == 1 and isinstance(st.targets[0], ast.Name):
+                    tgt, val = st.targets[0].id, st.value
+                if tgt == attr and val is not None:
+                    return self.eval_const(self.modules[mn], val)
+        raise KeyError(attr)
 
     # ------------------------------------------------- ctypes message classes
     INT_VALIDATORS = {
